@@ -107,12 +107,11 @@ func (r *ChunkReader) ReadChunk(size uint16) (*KV, error) {
 		}
 		r.r = nextReader
 
-		// Limit the max bytes read for the key to size minus 7 (min overhead,
-		// see note below)
-		keyReader := io.LimitReader(r.r, int64(size-7))
-
-		// Read key as raw CBOR
-		if err := cbor.NewDecoder(keyReader).Decode(&r.rkey); err != nil {
+		// Read key as raw CBOR. The key is always read in full so that a
+		// size too small for it is reported below (keeping the reader and
+		// the key for the next call) instead of failing or dropping the
+		// message.
+		if err := cbor.NewDecoder(r.r).Decode(&r.rkey); err != nil {
 			_ = r.r.CloseWithError(err)
 			r.r = nil
 
